@@ -9,24 +9,24 @@ Definition head_t (b : bool) : list Q := if b then [0] else [].
 Definition head_c (b : bool) (m : mode) : list Q :=
   if b then match m with Continuous => [0] | Discrete => [] end else [].
 
-Lemma concat_chan_inv fx first lst ms md i rest ts cs ms' md' :
-  concat_chan fx first lst ms md (i :: rest) = Some (ts, cs, ms', md') ->
+Lemma concat_chan_inv fx gtl first lst ms md i rest ts cs ms' md' :
+  concat_chan fx gtl first lst ms md (i :: rest) = Some (ts, cs, ms', md') ->
   exists gt co step m idl lst' ts' cs',
     process_gate_pulse (p_wave i) = Some (gt, co, step, m) /\
-    (if Qlt_b (step * tol) (Qabs (p_start i - lst))
+    (if Qlt_b (gtl step) (Qabs (p_start i - lst))
      then idle_tlist m (p_start i) lst step else Some []) = Some idl /\
     last_opt (map (fun x => x + p_start i) gt) = Some lst' /\
-    concat_chan fx false lst' (qmin_opt ms step) (Some m) rest = Some (ts', cs', ms', md') /\
+    concat_chan fx gtl false lst' (qmin_opt ms step) (Some m) rest = Some (ts', cs', ms', md') /\
     let isfirst := if fx then first else Qlt_b (Qabs lst) (step * tol) in
     ts = head_t isfirst ++ idl ++ map (fun x => x + p_start i) gt ++ ts' /\
     cs = head_c isfirst m ++ zeros idl ++ co ++ cs'.
 Proof.
   cbn [concat_chan].
   destruct (process_gate_pulse (p_wave i)) as [[[[gt co] step] m]|] eqn:EP; [|discriminate].
-  destruct (if Qlt_b (step * tol) (Qabs (p_start i - lst))
+  destruct (if Qlt_b (gtl step) (Qabs (p_start i - lst))
             then idle_tlist m (p_start i) lst step else Some []) as [idl|] eqn:EI; [|discriminate].
   destruct (last_opt (map (fun x => x + p_start i) gt)) as [lst'|] eqn:EL; [|discriminate].
-  destruct (concat_chan fx false lst' (qmin_opt ms step) (Some m) rest) as [[[[ts' cs'] ms''] md'']|] eqn:ER;
+  destruct (concat_chan fx gtl false lst' (qmin_opt ms step) (Some m) rest) as [[[[ts' cs'] ms''] md'']|] eqn:ER;
     [|discriminate].
   intro H. inversion H; subst; clear H.
   exists gt, co, step, m, idl, lst', ts', cs'.
@@ -53,9 +53,9 @@ Qed.
 Lemma zeros_length l : length (zeros l) = length l.
 Proof. apply map_length. Qed.
 
-Lemma chan_lengths_nf fx l lst ms md ts cs ms' md' :
+Lemma chan_lengths_nf fx gtl l lst ms md ts cs ms' md' :
   fx = true ->
-  concat_chan fx false lst ms md l = Some (ts, cs, ms', md') -> length ts = length cs.
+  concat_chan fx gtl false lst ms md l = Some (ts, cs, ms', md') -> length ts = length cs.
 Proof.
   intros ->. revert lst ms md ts cs ms' md'.
   induction l as [|i rest IH]; intros lst ms md ts cs ms' md' H.
@@ -70,8 +70,8 @@ Qed.
 (* the whole channel (first = true): the grid has one point more than there are coefficients when the
    channel starts with a discrete pulse, and as many points as coefficients when it starts with a
    continuous one *)
-Lemma chan_lengths_first i rest lst ms md ts cs ms' md' :
-  concat_chan true true lst ms md (i :: rest) = Some (ts, cs, ms', md') ->
+Lemma chan_lengths_first gtl i rest lst ms md ts cs ms' md' :
+  concat_chan true gtl true lst ms md (i :: rest) = Some (ts, cs, ms', md') ->
   (is_discrete (p_wave i) /\ length ts = S (length cs)) \/
   (is_continuous (p_wave i) /\ ~ is_discrete (p_wave i) /\ length ts = length cs).
 Proof.
@@ -119,12 +119,12 @@ Proof.
   split; [exact A|]. split; [lra|exact C].
 Qed.
 
-Lemma chan_grid_nf l : forall lst ms md ts cs ms' md',
+Lemma chan_grid_nf gtl l : (forall s, 0 < s -> 0 <= gtl s) -> forall lst ms md ts cs ms' md',
   chain_ord lst l -> ms_pos ms ->
-  concat_chan true false lst ms md l = Some (ts, cs, ms', md') ->
+  concat_chan true gtl false lst ms md l = Some (ts, cs, ms', md') ->
   incr_from lst ts /\ ms_pos ms' /\ (l <> [] -> ts <> [] /\ exists m, ms' = Some m /\ md' <> None).
 Proof.
-  induction l as [|i rest IH]; intros lst ms md ts cs ms' md' HC Hms H.
+  intro Hgt. induction l as [|i rest IH]; intros lst ms md ts cs ms' md' HC Hms H.
   - cbn in H. injection H as <- <- <- <-. split; [exact I|]. split; [exact Hms|]. congruence.
   - destruct HC as (Hw & Hle & HC).
     apply concat_chan_inv in H.
@@ -142,10 +142,10 @@ Proof.
     + (* increasing *)
       assert (Htail : incr_from (p_start i) (ex ++ ts')).
       { apply incr_app; [exact Einc|exact Hinc']. }
-      destruct (Qlt_b (step_of (p_wave i) * tol) (Qabs (p_start i - lst))) eqn:EG.
+      destruct (Qlt_b (gtl (step_of (p_wave i))) (Qabs (p_start i - lst))) eqn:EG.
       * qb. rewrite Qabs_pos in EG by lra.
         assert (Hlt : lst < p_start i).
-        { pose proof tol_pos. assert (0 < step_of (p_wave i) * tol) by (apply Qmult_lt_0_compat; assumption). lra. }
+        { pose proof (Hgt _ Hs). lra. }
         destruct (idle_incr _ _ _ _ _ Hs Hlt EI) as [Hi Hb].
         apply incr_app; [exact Hi|].
         apply incr_from_weaken with (a := p_start i); [|exact Htail].
@@ -162,9 +162,9 @@ Proof.
 Qed.
 
 (* the arrays do not depend on the threaded min_step_size / pulse_mode *)
-Lemma concat_chan_ms_irrel fx l : forall first lst ms md ts cs ms' md' ms2 md2,
-  concat_chan fx first lst ms md l = Some (ts, cs, ms', md') ->
-  exists ms2' md2', concat_chan fx first lst ms2 md2 l = Some (ts, cs, ms2', md2').
+Lemma concat_chan_ms_irrel fx gtl l : forall first lst ms md ts cs ms' md' ms2 md2,
+  concat_chan fx gtl first lst ms md l = Some (ts, cs, ms', md') ->
+  exists ms2' md2', concat_chan fx gtl first lst ms2 md2 l = Some (ts, cs, ms2', md2').
 Proof.
   induction l as [|i rest IH]; intros first lst ms md ts cs ms' md' ms2 md2 H.
   - cbn in H. inversion H; subst. cbn. eauto.
@@ -175,18 +175,18 @@ Proof.
     unfold head_t, head_c. reflexivity.
 Qed.
 
-Lemma chan_incr_nf l lst ms md ts cs ms' md' :
-  chain_ord lst l ->
-  concat_chan true false lst ms md l = Some (ts, cs, ms', md') -> incr_from lst ts.
+Lemma chan_incr_nf gtl l lst ms md ts cs ms' md' :
+  (forall s, 0 < s -> 0 <= gtl s) -> chain_ord lst l ->
+  concat_chan true gtl false lst ms md l = Some (ts, cs, ms', md') -> incr_from lst ts.
 Proof.
-  intros HC H.
-  destruct (concat_chan_ms_irrel _ _ _ _ _ _ _ _ _ _ None None H) as (a & b & H').
-  destruct (chan_grid_nf l lst None None ts cs a b HC I H') as (Hi & _). exact Hi.
+  intros Hgt HC H.
+  destruct (concat_chan_ms_irrel _ _ _ _ _ _ _ _ _ _ _ None None H) as (a & b & H').
+  destruct (chan_grid_nf gtl l Hgt lst None None ts cs a b HC I H') as (Hi & _). exact Hi.
 Qed.
 
-Lemma concat_first lst ms md i rest ts cs ms' md' :
-  concat_chan true true lst ms md (i :: rest) = Some (ts, cs, ms', md') ->
-  exists ts0 cs0, concat_chan true false lst ms md (i :: rest) = Some (ts0, cs0, ms', md') /\
+Lemma concat_first gtl lst ms md i rest ts cs ms' md' :
+  concat_chan true gtl true lst ms md (i :: rest) = Some (ts, cs, ms', md') ->
+  exists ts0 cs0, concat_chan true gtl false lst ms md (i :: rest) = Some (ts0, cs0, ms', md') /\
                   ts = 0 :: ts0 /\
                   (is_discrete (p_wave i) /\ cs = cs0 \/
                    is_continuous (p_wave i) /\ ~ is_discrete (p_wave i) /\ cs = 0 :: cs0).
@@ -204,21 +204,21 @@ Proof.
 Qed.
 
 (* the whole channel: the grid starts at 0 and increases strictly *)
-Lemma chan_grid l ms md ts cs ms' md' :
-  l <> [] -> chain_ord 0 l -> ms_pos ms ->
-  concat_chan true true 0 ms md l = Some (ts, cs, ms', md') ->
+Lemma chan_grid gtl l ms md ts cs ms' md' :
+  (forall s, 0 < s -> 0 <= gtl s) -> l <> [] -> chain_ord 0 l -> ms_pos ms ->
+  concat_chan true gtl true 0 ms md l = Some (ts, cs, ms', md') ->
   (exists r, ts = 0 :: r) /\ strictly_increasing ts /\ ms_pos ms' /\ (exists m, ms' = Some m) /\ md' <> None.
 Proof.
-  intros Hne HC Hms H. destruct l as [|i rest]; [congruence|].
+  intros Hgt Hne HC Hms H. destruct l as [|i rest]; [congruence|].
   apply concat_first in H. destruct H as (ts0 & cs0 & H & -> & _).
-  destruct (chan_grid_nf _ _ _ _ _ _ _ _ HC Hms H) as (Hi & Hp & Hx).
+  destruct (chan_grid_nf _ _ Hgt _ _ _ _ _ _ _ HC Hms H) as (Hi & Hp & Hx).
   destruct Hx as (_ & m & -> & Hmd); [congruence|].
   split; [eauto|]. split; [exact Hi|]. split; [exact Hp|]. split; [eauto|exact Hmd].
 Qed.
 
 (* the fixed code puts 0 at the head of every channel, whatever the durations *)
-Lemma chan_starts_zero i rest lst ms md ts cs ms' md' :
-  concat_chan true true lst ms md (i :: rest) = Some (ts, cs, ms', md') -> exists r, ts = 0 :: r.
+Lemma chan_starts_zero gtl i rest lst ms md ts cs ms' md' :
+  concat_chan true gtl true lst ms md (i :: rest) = Some (ts, cs, ms', md') -> exists r, ts = 0 :: r.
 Proof.
   intro H. apply concat_first in H. destruct H as (ts0 & cs0 & _ & -> & _). eauto.
 Qed.
